@@ -40,6 +40,9 @@ Proof.
   - eexists _, _. reflexivity.
 Qed.
 
+Lemma value_norm tok : is_value_tok tok = true -> norm_atom (ref_def tok) = ref_def tok.
+Proof. intros Hv. destruct (value_tok_facts tok Hv) as (sec & _ & _ & _ & _ & _ & Hn & _). exact Hn. Qed.
+
 Definition ms_frames (ms : spine_state) : list frame := fst ms.
 
 Lemma run_opexpr ntoks : forall toks i st after sp depth ms prev,
@@ -79,7 +82,8 @@ Proof.
         rewrite Hit. split; [reflexivity|]. split.
         -- cbn [app spine_run spine_step next_index]. change (ref_rank D_List) with (Some 220%N). cbn iota.
            rewrite Hpop. cbn [spine_run spine_step next_index]. rewrite <- Hsr, L1. reflexivity.
-        -- constructor; [simpl; exists 220%N; split; [reflexivity|reflexivity]|]. constructor; [exact I|exact Hrk].
+        -- constructor; [simpl; exists 220%N; split; [reflexivity|reflexivity]|].
+           constructor; [exact (value_norm tok Hv)|exact Hrk].
       * (* where an operand is expected *)
         destruct ms as [fs [t|]]; simpl in R; [contradiction|]. cbn [ms_frames fst] in Hdepth.
         destruct (gstep_value ntoks i tok st fs sp R Hv) as (st1 & Hs & G1 & L1).
@@ -92,7 +96,7 @@ Proof.
         { destruct prev as [p|]; [|reflexivity]. simpl in Hprev. rewrite Hprev. rewrite andb_false_r. reflexivity. }
         rewrite Hlead, Hit. split; [reflexivity|]. split.
         -- cbn [app spine_run spine_step next_index]. rewrite <- Hsr, L1. reflexivity.
-        -- constructor; [exact I|exact Hrk].
+        -- constructor; [exact (value_norm tok Hv)|exact Hrk].
     + (* binary *)
       apply andb_true_iff in Hop. destruct Hop as [-> Hop].
       assert (Hb : is_binary_tok tok = true) by (unfold is_binary_tok; rewrite Ek; reflexivity).
